@@ -190,7 +190,7 @@ class C13(Property):
                 tw.volume, tw.volume_approx
             except Exception:  # noqa: BLE001 - not judged
                 pass
-        d = cls(pos, R0, spec["width"], amps)
+        d = cls(gen.as_given(pos, R0, spec["amplitudes"])[0], R0, spec["width"], amps if len(amps) % 2 else [float(a) for a in amps])
         nz = int(np.count_nonzero(amps))
         ctx.cls(spec["cls"], spec["regime"], f"nonzero-modes:{min(nz, 3)}{'+' if nz > 3 else ''}")
         ctx.nontrivial = nz >= 2 or not (0.9 <= R0 <= 1.1) or bool(np.any(pos != 0))
